@@ -182,7 +182,7 @@ def illFrom (env : Env) : Nat → Json → Str → Json → Json → Nat → St 
     | none => true                                                                   -- site (a)
     | some state =>
       let ctx := ctxFor ctx name retries
-      let st := if retries = 0 then { st with trace := name :: st.trace } else st
+      let st := st.enter name data retries
       illState env fuel states name state data ctx retries st
 termination_by structural fuel => fuel
 
@@ -198,7 +198,7 @@ def illLeave (env : Env) : Nat → Json → Str → Json → Json → Json → J
       | some next =>
         if (render data).length > env.maxData then
           illErr env fuel states name state raw ctx retries (S "States.DataLimitExceeded") (S "m") st
-        else illFrom env fuel states next data ctx 0 st
+        else illFrom env fuel states next data ctx 0 (st.exit name data)
 termination_by structural fuel => fuel
 
 def illErr (env : Env) : Nat → Json → Str → Json → Json → Json → Nat → Str → Str → St → Bool
@@ -220,7 +220,7 @@ def illErr (env : Env) : Nat → Json → Str → Json → Json → Json → Nat
         | none => true                                                               -- site (d)
         | some next =>
           if (render data').length > env.maxData then false
-          else illFrom env fuel states next data' ctx 0 st
+          else illFrom env fuel states next data' ctx 0 (st.exit name data')
     | .uncaught => false
 termination_by structural fuel => fuel
 
@@ -287,7 +287,7 @@ def illState (env : Env) : Nat → Json → Str → Json → Json → Json → N
           | some n =>
             if (render out).length > env.maxData then
               illErr env fuel states name state data ctx retries (S "States.DataLimitExceeded") (S "m") st
-            else illFrom env fuel states n out ctx 0 st
+            else illFrom env fuel states n out ctx 0 (st.exit name out)
     else if ty = S "Task" then
       match rpcFunction ((fldStr state "Resource").getD []) with
       | none => false
@@ -350,7 +350,7 @@ def illJoin (env : Env) : Nat → Json → Str → Json → Json → Json → Na
       -- `if error_message:` — a branch that failed without a Cause, or with a falsy one (a Fail state with
       -- `Cause: ""`), gives an Error Output without `Cause`
       let msg : Str := if isTrue cause then S "m" else []
-      illErr env fuel states name state data ctx retries e msg st
+      illErr env fuel states name state data ctx retries e msg { st with fanFail := true }
     | .error _ => false
     | .ok results =>
       match tmplOpt env (.arr results) ctx (fld state "ResultSelector") with
